@@ -82,6 +82,17 @@ CLAIMED["C09"] = dict(
     technique="TLA+ spec Grafts (graft positions with liveness) + TLC enumeration, replay into the real translator, TLC trace validation (JobTrace.Refuses)",
 )
 
+CLAIMED["C12"] = dict(
+    category="model_checking",
+    text="The documented function list is a TLA+ constant transcribed from README.md; TLC enumerates every function standalone (all argument tuples over constants and "
+         "a method value) and, sampled, inside arithmetic, comparisons and other calls; the compiled job's values are validated by TLC against a reference table built "
+         "at check time from the C library function of each documented name.",
+    design_ref="DESIGN.md section 5 C12",
+    note="TLC cannot compute transcendental functions: the table (libm via a generated C program, harness/mathtable.py) is the trusted numeric oracle, TLC does enumeration, "
+         "lookup and comparison on a 1/1000 grid; nan() and remquo() take a string / a pointer and cannot be called from a query (MAY, not generated).",
+    technique="TLA+ spec (QueryGen math profile, Query.MathApply) + TLC enumeration, replay into translator and compiled code, TLC trace validation against a libm reference table",
+)
+
 PENDING = "check not built yet in this round (planned, see DESIGN.md section 11); not claimed until its machinery exists"
 
 
